@@ -25,10 +25,10 @@ from harness import lib
 
 GEN = os.path.join(lib.COQ, "Gen")
 
-# (output module name, file relative to REPO, qualified function name, Coq identifier, owning property)
+# (output module name, file relative to REPO, qualified function name, Coq identifier, owning properties)
 KERNELS = [
     ("SplitArray", "strax/chunk.py", "split_array", "split_array_prog", "C07"),
-    ("Diff", "strax/processing/general.py", "diff", "diff_prog", "C07"),
+    ("Diff", "strax/processing/general.py", "diff", "diff_prog", "C07,C17"),
     ("FindBreakI", "strax/processing/general.py", "_find_break_i", "find_break_i_prog", "C17"),
     ("FcIn", "strax/processing/general.py", "_fc_in", "fc_in_prog", "C17"),
 ]
@@ -36,7 +36,8 @@ KERNELS = [
 
 def dependents(name, prop):
     """compiled files that must not survive when Gen/<name>.v cannot be produced"""
-    return ["Gen/%s" % name, "Proof/Refine%s" % name, "Props/GenTie%s" % prop, "Props/GenTie"]
+    return (["Gen/%s" % name, "Proof/Refine%s" % name] + ["Props/GenTie%s" % p for p in prop.split(",")]
+            + ["Proof/RefineC17", "Props/GenTie"])
 
 
 def _drop_compiled(stem):
